@@ -1,5 +1,6 @@
 // UNIT canon: the canoniser of sub-formula texts (src/evaluation/canonization.rs) -- C09
 #![feature(allocator_api)]
+#![feature(pattern)]
 #![allow(unused_imports, dead_code, unused_variables, unused_mut, non_snake_case, unused_parens)]
 use vstd::prelude::*;
 use vstd::string::StringSliceAdditionalSpecFns;
@@ -21,6 +22,7 @@ impl DecFmt for u32 { open spec fn dec_view(&self) -> int { *self as int } }
 impl DecFmt for u64 { open spec fn dec_view(&self) -> int { *self as int } }
 impl DecFmt for usize { open spec fn dec_view(&self) -> int { *self as int } }
 //@include prelude/std_model.rs
+//@include prelude/weak_std.rs
 //@include prelude/lex_model.rs
 //@include spec/strmap.rs
 //@include spec/canon.rs
